@@ -23,6 +23,9 @@ def fdec (i : Int) : Float := Float.ofBits i.toNat.toUInt64
 structure St where
   P : Params Float
   d : Disc Float
+  /-- `true`: the copy of this code inside `control::KPIECE1` (coverage weight = steps, score offset 1e-3, border
+  fraction 0.8 by default and set without range check) -/
+  control : Bool := false
   nextM : Nat := 0
   live : List Nat := []
   parents : List (Nat × Option Nat) := []
@@ -37,6 +40,11 @@ def init (ts : List String) : Option St :=
     if dim > 8 then none
     pure { P := { dim, enc := fenc, dec := fdec, eps := Float.ofBits 0x3CB0000000000000 },
            d := { bf := Float.ofScientific 9 true 1 } }
+  | ["disc", d, "variant=control"] => do
+    let dim ← (← kv "dim=" d).toNat?
+    if dim > 8 then none
+    pure { P := { dim, enc := fenc, dec := fdec, eps := Float.ofBits 0x3CB0000000000000 },
+           d := { bf := Float.ofScientific 8 true 1 }, control := true }
   | _ => none
 
 def joinC (xs : List String) : String := if xs.isEmpty then "-" else ",".intercalate xs
@@ -80,6 +88,18 @@ def step (st : St) (ts : List String) : St × String :=
           s!"m={st.nextM} created={r.2}"
       | none => (st, "bad-op")
     | _, _ => (st, "bad-op")
+  | "addw" :: par :: steps :: rest =>
+    match parseInt? par, parseNat? steps, coord? P.dim rest with
+    | some par, some steps, some (x, [dist]) =>
+      match parseFloatBits? dist with
+      | some dist =>
+        if par < -1 || par ≥ (st.nextM : Int) || !st.control then (st, "bad-op") else
+        let r := add P st.d st.nextM x dist (Float.ofNat steps) (Float.ofScientific 1 true 3)
+        fin { st with d := r.1, nextM := st.nextM + 1, live := st.live ++ [st.nextM],
+                      parents := st.parents ++ [(st.nextM, if par < 0 then none else some par.toNat)] }
+          s!"m={st.nextM} created={r.2}"
+      | none => (st, "bad-op")
+    | _, _, _ => (st, "bad-op")
   | ["sel", seed] =>
     match parseNat? seed with
     | some seed =>
@@ -114,6 +134,7 @@ def step (st : St) (ts : List String) : St × String :=
   | ["bf", b] =>
     match parseFloatBits? b with
     | some b =>
+      if st.control then fin { st with d := { st.d with bf := b } } "ok" else
       let r := setBorderFraction P st.d b
       fin { st with d := r.1 } (if r.2 then "ok" else "err")
     | none => (st, "bad-op")
